@@ -974,12 +974,19 @@ func (m *Monitor) afterInvoke(i int, op *Op, f *Fn, rec *OpRec) {
 							props = "C04,C08,C12"
 						}
 					}
+					for _, r := range m.regs {
+						if len(r.as) > 0 {
+							// a value must be obtainable under every interface its As list names
+							props += ",C09"
+							break
+						}
+					}
 					m.violate(props, "C04.should-succeed", "every dependency of f%d is available from s%d but Invoke failed: %s %v", f.ID, op.Scope, cl, rec.Err)
 				}
 			case avNo:
 				m.stats["invoke.avail-no"]++
 				if cl != VDig {
-					m.violate("C04,C08", "C04.should-fail", "a required dependency of f%d is unavailable from s%d but verdict is %s", f.ID, op.Scope, cl)
+					m.violate("C04,C08,C09", "C04.should-fail", "a required dependency of f%d is unavailable from s%d but verdict is %s", f.ID, op.Scope, cl)
 				}
 			default:
 				m.stats["invoke.avail-unknown"]++
@@ -1032,7 +1039,13 @@ func expectedInfo(f *Fn, as []int, withOutputs bool) []string {
 	for _, r := range f.Results {
 		var ts []int
 		for _, a := range as {
-			if a != r.K.T {
+			dup := false
+			for _, x := range ts {
+				if x == a {
+					dup = true
+				}
+			}
+			if !dup {
 				ts = append(ts, a)
 			}
 		}
